@@ -13,6 +13,7 @@
     istr   I            String(i) for an int64-kinded number Value i (decimal)
     litstr S            String(<numeric literal S>) (else `other`)
     pintstr S A         String(parseInt(s, a))
+    argobj M R V S      Number.prototype.M.call(R, obj): obj = scripted valueOf (V) / toString (S); reply = result|call log
     nthis  M K          Number.prototype.M.call(<a this value of kind K>): `ok` or throw:TypeError
     rt     X L          Number(String(x))
 -/
@@ -49,6 +50,30 @@ def kind? : String → Option ThisKind
   | "undef" => some .undef | "null" => some .null | "bool" => some .bool | "str" => some .str | "num" => some .num
   | "obj" => some .obj | "arr" => some .arr | "fn" => some .fn | "date" => some .date | "numObj" => some .numObj
   | "strObj" => some .strObj | "boolObj" => some .boolObj | "protoChild" => some .protoChild | _ => none
+
+def meth? : String → Option Meth
+  | "toFixed" => some .toFixed | "toExponential" => some .toExponential | "toPrecision" => some .toPrecision
+  | "toString" => some .toString | _ => none
+
+def recv? (t : String) : Option Recv :=
+  if t = "x" then some .other
+  else match t.splitOn ":" with
+    | ["p", h] => (f64? h).map .num
+    | ["N", h] => (f64? h).map .numObj
+    | _ => none
+
+def item? (t : String) : Option Item :=
+  if t = "o" then some .obj else if t = "T" then some .throw else (f64? t).map .num
+
+def items? (t : String) : Option (List Item) :=
+  let parts := t.splitOn ","
+  if parts.isEmpty then none else parts.mapM item?
+
+def outOut (o : Out × Str) : String :=
+  (match o.1 with
+   | .res r => resOut r
+   | .typeError => "throw:TypeError"
+   | .thrown => "throw:SyntaxError") ++ "|" ++ (if o.2.isEmpty then "-" else String.ofList (o.2.map Char.ofNat))
 
 def devOut (ds : List String) : String :=
   if ds.isEmpty then "-" else ",".intercalate ds
@@ -102,6 +127,16 @@ def handle (ws : List String) : String :=
   | ["nthis", _m, k] => match kind? k with
     | some k => reply (thisOut (numberMethodThis k)) (thisOut (Spec.numberMethodThis k)) []
     | none => "bad-op"
+  | ["argobj", m, r, v, sv] => match meth? m, recv? r, items? v, items? sv with
+    | some m, some r, some vs, some ss =>
+      let sc : Script := ⟨vs, ss⟩
+      -- toString(radix) of a non-integral value is specified here only for power-of-two radixes
+      let unspecified : Bool := match m, r.value?, (Spec.toNumberObj sc st0).1 with
+        | .toString, some x, .val a => (Spec.toStringRadix x (.num a)).isNone
+        | _, _, _ => false
+      if unspecified then "bad-op"
+      else reply (outOut (callWithObject L m r sc)) (outOut (Spec.callWithObject m r sc)) (Spec.Dev.argobj m r sc)
+    | _, _, _, _ => "bad-op"
   | ["istr", i] => match int? i with
     | some i => reply (resOut (.str (formatInt i 10))) (resOut (.str (Spec.toStringNum (ofInt i)))) (Spec.Dev.istr i)
     | none => "bad-op"
